@@ -46,6 +46,7 @@ def a_molecules(thorough=True):
     return out
 
 
+FAR_SHIFT = np.array([6000.0, 7500.0, 9000.0])
 DEG_POS = np.array([[0.3, 0.125, 0.25], [0.0, 0.0, 0.0], [0.25, 0.0, 0.0], [0.5, 0.0, 0.0]])
 
 
@@ -129,6 +130,8 @@ class C06(Check):
                             yield dict(unit, types=types, restr=rk, ign=ign, sf=sf, H=H, D=D)
                     if rk == 'none' and types in (None, [2], [0, 1]):
                         yield dict(unit, types=types, restr=rk, ign=True, sf=1, H=H, D=D, reset=1)
+                    if rk == 'none' and types in (None, [2]):
+                        yield dict(unit, types=types, restr=rk, ign=False, sf=1, H=H, D=D, far=1)
         elif unit['k'] == 'large':
             for types in (None, [0, 1]):
                 for ign in (True, False):
@@ -143,6 +146,8 @@ class C06(Check):
                 for aname, n, edges, acyc in a_molecules(False)[3::3]:
                     yield dict(unit, aname=aname, n=n, edges=edges, acyc=acyc, b=b, start='A', types=None,
                                restr='r00', ign=True, sf=10)
+                    yield dict(unit, aname=aname, n=n, edges=edges, acyc=acyc, b=b, start='A', types=None,
+                               restr='none', ign=True, sf=10)
 
     # ------------------------------------------------------------------
     def build_pair(self, case, seed):
@@ -151,9 +156,12 @@ class C06(Check):
             pa = generic_points(n, seed, scale=0.35, tag=10 + n) + np.array([0.3, -0.2, 0.1])
             if case.get('aname') == 'star4deg':
                 pa = DEG_POS.copy()
-            A = molecule('MOLA', [(f'C{i + 1}', 'MOLA', 1) for i in range(n)], edges, pa)
             names, bedges = BMOLS[case['b']]
             pb = generic_points(len(names), seed, scale=0.4, tag=30 + len(names))
+            if case.get('far'):          # both molecules thousands of nm from the origin (legal in a .gro file)
+                pa = pa + FAR_SHIFT
+                pb = pb + FAR_SHIFT + np.array([0.25, -0.5, 0.125])
+            A = molecule('MOLA', [(f'C{i + 1}', 'MOLA', 1) for i in range(n)], edges, pa)
             B = molecule('MOLB', [(nm, 'MOLB', 1) for nm in names], bedges, pb)
             return A, B, edges, bedges, acyc, True
         if case['k'] == 'large':
@@ -231,12 +239,16 @@ class C06(Check):
             with patched(be, 'Chi2Calculator', RecChi2), patched(Alignment, 'STEPS_FACTOR', case['sf']), \
                     patched(be, 'accept_metropolis', rec_acc), quiet_stdout():
                 try:
+                    # no restraint list = the argument is OMITTED (the library's own default is used)
+                    kw = dict(deformation_types=types, ignore_hydrogens=case['ign'])
+                    if restr is not None:
+                        kw['restrictions'] = restr
                     if rng_seed is None:
                         with owned_random(script):
-                            ali.align_molecules(restr, types, case['ign'])
+                            ali.align_molecules(**kw)
                     else:
                         np.random.seed(rng_seed)
-                        ali.align_molecules(restr, types, case['ign'])
+                        ali.align_molecules(**kw)
                 except Horizon:
                     cut = True
                 except Exception as exc:  # noqa
@@ -258,7 +270,7 @@ class C06(Check):
                     try:
                         setattr(ali, 'end' if start_is_larger else 'start', newmob)
                         with owned_random(script):
-                            ali.align_molecules(restr, types, case['ign'])
+                            ali.align_molecules(**kw)
                     except Horizon:
                         ph2['cut'] = True
                     except Exception as exc:  # noqa
@@ -349,7 +361,7 @@ class C06(Check):
             R.add('proposed_configurations_checked', len(proposals))
             R.case(desc, nontrivial=iters > 0,
                    outcome=('cut' if cut else 'done') + f'/it{min(iters, 9)}',
-                   cls=f"{case['k']}{'/realign' if case.get('reset') else ''}/{'startL' if start_is_larger else 'endL'}/types{case['types']}/{case['restr']}/ign{int(case['ign'])}")
+                   cls=f"{case['k']}{'/realign' if case.get('reset') else ''}{'/far' if case.get('far') else ''}/{'startL' if start_is_larger else 'endL'}/types{case['types']}/{case['restr']}/ign{int(case['ign'])}")
             for sig, det in judge(desc, ali, proposals, events, cut, err, ph2):
                 R.violation(sig, desc, det)
             if ph2 is not None:
@@ -392,6 +404,9 @@ class C06(Check):
                         else:
                             pairs = [(i, len(start_in) - 1) for i in range(1, len(end_in))]
                         other.align_molecules(pairs, None, False)
+                        # ... and a multi-residue pair aligned with every argument omitted (restraints guessed)
+                        pa, pb = self.build_pair({'k': 'multires'}, seed)[:2]
+                        Alignment(pa, pb).align_molecules()
                 except Exception:
                     pass
                 o2 = one(None, rng_seed=rs)
